@@ -63,20 +63,33 @@ wstran_pipe_send_cb(void *arg)
 	ws_pipe *p    = arg;
 	nni_aio *taio = &p->txaio;
 	nni_aio *uaio;
+	nni_msg *msg = NULL;
+	int      rv;
 
 	nni_mtx_lock(&p->mtx);
 	uaio          = p->user_txaio;
 	p->user_txaio = NULL;
 
+	if ((rv = nni_aio_result(taio)) != 0) {
+		// The websocket layer releases the message only once it
+		// was sent.  Hand it back to the sender, or release it
+		// if the sender is already gone (canceled).
+		msg = nni_aio_get_msg(taio);
+		nni_aio_set_msg(taio, NULL);
+	}
 	if (uaio != NULL) {
-		int rv;
-		if ((rv = nni_aio_result(taio)) != 0) {
+		if (rv != 0) {
+			nni_aio_set_msg(uaio, msg);
+			msg = NULL;
 			nni_aio_finish_error(uaio, rv);
 		} else {
 			nni_aio_finish(uaio, 0, 0);
 		}
 	}
 	nni_mtx_unlock(&p->mtx);
+	if (msg != NULL) {
+		nni_msg_free(msg);
+	}
 }
 
 static void
